@@ -14,6 +14,10 @@ while args and args[0].startswith("-"):
         jobs = int(args[1]); args = args[2:]
     elif args[0] == "--tier":
         tier = args[1]; args = args[2:]
+# one snapshot of /verif for the whole run, so that edits made while the matrix runs do not leak into later jobs
+SNAP = "/tmp/pv/_snapshot_%d" % os.getpid()
+os.makedirs("/tmp/pv", exist_ok=True)
+subprocess.run(["rsync", "-a", "--delete", "--exclude", ".git", "--exclude", "seeded", "--exclude", "replays", V + "/", SNAP + "/"], check=True)
 ids = args or sorted(d for d in os.listdir(os.path.join(V, "seeded")) if os.path.isdir(os.path.join(V, "seeded", d)))
 
 
@@ -27,7 +31,7 @@ def one(d):
     os.makedirs(root)
     t0 = time.time()
     try:
-        subprocess.run(["rsync", "-a", "--exclude", ".git", "--exclude", "seeded", "--exclude", "replays", V + "/", root + "/verif/"], check=True)
+        subprocess.run(["rsync", "-a", SNAP + "/", root + "/verif/"], check=True)
         subprocess.run(["rsync", "-a", "--exclude", ".git", "/repo/", root + "/repo/"], check=True)
         gm = os.path.join(root, "verif", "harness", "go.mod")
         s = open(gm).read().replace("=> /repo", "=> " + root + "/repo")
@@ -70,6 +74,7 @@ with ThreadPoolExecutor(jobs) as ex:
             continue
         print(d, "DETECTED" if viol else "MISSED", "witness" if rest[0] else "", flush=True)
         rows.append((d, pid, viol) + rest)
+shutil.rmtree(SNAP, ignore_errors=True)
 with open(os.path.join(V, "seeded", "RESULTS.md"), "a") as f:
     for r in rows:
         f.write("| %s | %s | %s | %s | %s | %s |\n" % (r[0], r[1], "yes" if r[2] else "NO", "yes" if r[3] else "no", r[4], r[5].replace("|", "/")[:200]))
